@@ -173,7 +173,7 @@ func bits(rs []RevResult) string {
 func runC02(c *Ctx) {
 	withStd = true
 	defer func() { withStd = false }()
-	n, per := 1200, 10
+	n, per := 3000, 10
 	if c.Thorough {
 		n, per = 20000, 0
 	}
@@ -247,7 +247,7 @@ func runC02(c *Ctx) {
 // ---------------------------------------------------------------- C03
 
 func runC03(c *Ctx) {
-	n, per := 1500, 12
+	n, per := 3000, 12
 	if c.Thorough {
 		n, per = 20000, 0
 	}
@@ -322,7 +322,7 @@ func fixedOrder() []string {
 func runC13(c *Ctx) {
 	withStd = true
 	defer func() { withStd = false }()
-	n, per := 1500, 8
+	n, per := 3000, 8
 	if c.Thorough {
 		n, per = 20000, 0
 	}
